@@ -11,6 +11,8 @@ kinds: py_raise (raises ValueError("boom-<token>")), sh_exit (exit 3, "boom-<tok
 wf_node (3-node workflow whose middle node is py_raise), and python tasks with two mandatory
 outputs (a, b) whose failing return value is {"a":1} / {} / (1,2,3) / (1,) / None.
 api "call" = Task.__call__; "submitter" = Submitter(...)(task, raise_errors=False).
+Optional "inject": "poll-race" (witnesses only): vlib/inject/cachehist.poll_race makes one legal
+timing of the cf worker deterministic.
 """
 from __future__ import annotations
 
@@ -49,11 +51,12 @@ ASSUMPTIONS = [
 TEXT_KINDS = ("py_raise", "sh_exit", "wf_node")
 MISSING_KINDS = ("dict_missing", "dict_empty", "tuple_long", "tuple_short", "none_for_two")
 
-SIG_STALE = "success-after-cached-failure-reported-as-failure:stale-errored-flag"
+SIG_STALE = "stale-errored-state-of-cached-failure-taken-for-the-current-run"
+SIG_POLL = "cf-workflow-aborted-by-status-polling-before-node-error-is-collected"
 SIG_DICT = "python-dict-return-missing-key-accepted-as-success:NOTHING-output"
 
 
-def _build(kind, d):
+def _build(kind, d, inject=None):
     from vlib import tasks_cachehist as T
 
     flag, log, token = str(d / "flag"), str(d / "log"), f"tok-{kind}"
@@ -63,6 +66,8 @@ def _build(kind, d):
     elif kind == "sh_exit":
         (d / "s.sh").write_text(T.SH_SCRIPT)
         t = T.ShFail(script=str(d / "s.sh"), flag=flag, log=log, token=token)
+    elif kind == "wf_node" and inject == "poll-race":
+        t = T.FailWFSlow(flag=flag, log=log, prelog=str(d / "prelog"), token=token, gate=str(d))
     elif kind == "wf_node":
         t = T.FailWF(flag=flag, log=log, prelog=str(d / "prelog"), token=token)
     else:
@@ -96,11 +101,16 @@ def _outputs_dict(outputs):
     return out
 
 
-def _submit(task, root, op):
+def _submit(task, root, op, inject=None):
     """-> dict(failed=bool, report=str, outputs=dict|None)"""
+    if inject == "poll-race" and op["worker"] == "cf":
+        from vlib.inject.cachehist import poll_race
+
+        with poll_race(task.gate, "r"):
+            return _submit(task, root, dict(op, n_procs=2))
     from pydra.engine.submitter import Submitter
 
-    kw = dict(n_procs=1) if op["worker"] == "cf" else {}
+    kw = dict(n_procs=op.get("n_procs", 1)) if op["worker"] == "cf" else {}
     try:
         if op["api"] == "call":
             outs = task(cache_root=root, worker=op["worker"], rerun=op["rerun"], **kw)
@@ -142,7 +152,7 @@ def check_case(case):
         for k in case["kinds"]:
             dirs[k] = base / k
             dirs[k].mkdir()
-            tasks[k] = _build(k, dirs[k])
+            tasks[k] = _build(k, dirs[k], case.get("inject"))
         model = FailModel(case["kinds"])
         desynced = set()
         pre_seen = {k: 0 for k in case["kinds"]}
@@ -156,7 +166,7 @@ def check_case(case):
                 continue
             runs_before = model.runs[k]
             outcome, before = model.submit(k, op["rerun"])
-            obs = _submit(tasks[k], root, op)
+            obs = _submit(tasks[k], root, op, case.get("inject"))
             runs = len(read_lines(dirs[k] / "log"))
             executed = runs - runs_before
             where = f"step {step}: {op}; model: {outcome}, cache before: {before}, flag {model.flag[k]}"
@@ -186,7 +196,15 @@ def check_case(case):
                         add(f"failed-task-not-executed-again:{k}" if executed == 0 else
                             f"failed-task-executed-{executed}-times:{k}", executed, 1)
                     if k in TEXT_KINDS and token not in obs["report"]:
-                        add(f"failure-report-lacks-recorded-error:{k}:{obs['how']}",
+                        # cf only: the submitter's status polling noticed the node's errored
+                        # result before the node's future (which carries the recorded error)
+                        # was collected and raised a secondary ValueError out of the workflow
+                        polled = (k == "wf_node" and op["worker"] == "cf" and executed == 1
+                                  and any(t in obs["report"] for t in
+                                          ("ValueError: Job 'r' failed",
+                                           "from r as the node errored")))
+                        add(SIG_POLL if polled else
+                            f"failure-report-lacks-recorded-error:{k}:{obs['how']}",
                             obs["report"][-400:], f"report containing {token!r}")
             elif outcome == "ok":
                 if obs["failed"]:
